@@ -56,6 +56,11 @@ class C12Common:
     def setup(self, w):
         self.rows = _fixed_rows(w.sc)
         self.fixed0 = w.atoms.positions[self.rows].copy() if self.rows else None
+        # where the number of atoms changes (grand canonical runs) the user's fixed atoms are followed by identity
+        self.by_uid = None
+        if w.sc["driver"] == "GrandCanonical" and "uid" in w.atoms.arrays and self.rows:
+            uid = w.atoms.arrays["uid"]
+            self.by_uid = {int(uid[r]): w.atoms.positions[r].copy() for r in self.rows}
         self.com0 = w.atoms.get_center_of_mass() if len(w.atoms) else np.zeros(3)
         self.kinds = _kinds(w.sc)
         self.has_com = "FixCom" in self.kinds
@@ -66,6 +71,20 @@ class C12Common:
     def check_positions(self, w, where, ctx):
         atoms = w.atoms
         self.nchecks += 1
+        if getattr(self, "by_uid", None) is not None:
+            uid = atoms.arrays.get("uid")
+            if uid is None or len(uid) != len(atoms):
+                return
+            where_uid = {int(u): i for i, u in enumerate(uid)}
+            for u, p0 in self.by_uid.items():
+                i = where_uid.get(u)
+                if i is not None and not np.array_equal(atoms.positions[i], p0):
+                    d = float(np.max(np.abs(atoms.positions[i] - p0)))
+                    self.violate(w, "fixed_atom_moved", f"{ctx}|constraints={self.kinds}|at={where}",
+                                 f"the atom the user fixed (uid {u}, now row {i}) moved by {d:.3e}; FixAtoms now holds "
+                                 f"{[c.index.tolist() for c in atoms.constraints if hasattr(c, 'index')]}")
+                    self.by_uid[u] = atoms.positions[i].copy()
+            return
         if self.rows:
             cur = atoms.positions[self.rows]
             if cur.shape != self.fixed0.shape or not np.array_equal(cur, self.fixed0):
@@ -178,7 +197,7 @@ class C12FBMonitor(FBMonitor, C12Common):
 class C12(HistoryCampaign):
     prop = "C12"
     flavor = {
-        "drivers": ["Canonical", "HamiltonianCanonical", "HamiltonianCanonical"],
+        "drivers": ["Canonical", "HamiltonianCanonical", "HamiltonianCanonical", "GrandCanonical"],
         "calc_styles": ["caching", "stateless"],
         "scales": ["moderate"], "constraints": 1.0,
         # FixAtoms + FixCom is not generated: ASE applies constraints one after the other, so the
@@ -188,7 +207,8 @@ class C12(HistoryCampaign):
         "p_force": [0.0, 0.5, 0.9], "p_veto": [0.0, 0.1, 0.3], "preselect": 0.1, "steps_max": 12, "triclinic": 0.3,
     }
     rule = ("one evaluation = one generated deployment with FixAtoms / FixCom / FixRot (and combinations) under "
-            "displacement, composite, rotation-of-molecule and Hamiltonian moves (random dt, step count) or "
+            "displacement, composite, rotation-of-molecule and Hamiltonian moves (random dt, step count), displacement "
+            "moves next to exchange moves in grand-canonical tables (FixAtoms, fixed atoms followed by identity), or "
             "force-bias steps (random delta, T, mass powers); fixed rows, centre of mass, angular and linear momentum "
             "are checked at criteria entry and after every trial / step; distinct = (driver, move kind, verdict, "
             "constraint kinds) tuples; non-trivial = at least one trial or step executed")
@@ -199,6 +219,9 @@ class C12(HistoryCampaign):
         if rnd.random() < 0.3:
             return self.gen_fb(rnd)
         sc = gen_history(rnd, self.flavor)
+        if sc["driver"] == "GrandCanonical":
+            # exchange moves in the table: deletions re-index FixAtoms, the user's fixed atoms are followed by identity
+            return sc
         if rnd.random() < 0.3 and "FixRot" not in _kinds(sc):
             # the user runs, then edits the structure and sets the constraints, then continues the same simulation
             total = sum(s["n"] for s in sc["steps"])
